@@ -153,6 +153,8 @@ func main() {
 				configs = append(configs, name+" (skipped: "+err.Error()+")")
 				continue
 			}
+			p2.Anchors = p.Anchors
+			p2.ResolveAnchors()
 			c2 := core.NewCtx(p2, *prop, *tier)
 			run(c2)
 			added := 0
@@ -169,6 +171,7 @@ func main() {
 			p2 = nil
 			debug.FreeOSMemory()
 		}
+		core.Current = p
 		ctx.Extra["build_configurations"] = configs
 		if *canaryTotal >= 0 {
 			ctx.Extra["canaries_total"] = *canaryTotal
